@@ -200,7 +200,7 @@ def fam_storage_hold_start(T=4):
     for st, mh, pr in itertools.product([dict(size=2, cin=1, cout=1, start=1, end=0), dict(size=3, cin=1, cout=2, start=2, end=0), dict(size=2, cin=1, cout=1, start=1, end=1),
                                          dict(size=2, cin=1, cout=2, start=0, end=0, inflow=1)], (1, 2), ([1, 5, 2, 6], [4, 1, 1, 5])):
         s = F.storage(T, 'n1', maxhold=mh, **st)
-        out.append(F.make_cfg(ids(), T, [slack(T, 'n1', pr[:T], lo=-3, hi=3), s]))
+        out.append(F.make_cfg(ids(), T, [slack(T, 'n1', (pr * T)[:T], lo=-3, hi=3), s]))
     return out
 
 
@@ -209,7 +209,7 @@ def fam_storage_hold_T(T=4):
     out = []
     for mh, dt, pr in itertools.product((1, 2, 3), ([1] * T, [2] * T), ([1, 5, 2, 6, 3, 4, 1, 5], [4, 1, 1, 5, 2, 6, 1, 3])):
         s = F.storage(T, 'n1', size=2, cin=1, cout=1, maxhold=mh * dt[0])
-        out.append(F.make_cfg(ids(), T, [slack(T, 'n1', pr[:T], lo=-2, hi=2), s], dt=dt))
+        out.append(F.make_cfg(ids(), T, [slack(T, 'n1', (pr * T)[:T], lo=-2, hi=2), s], dt=dt))
     return out
 
 
@@ -325,7 +325,7 @@ def fam_take_placement(T=3, thorough=True):
             rest = [slack(T, 'n1', ([2, 3, 2] * T)[:T], lo=-4, hi=0)]
         else:
             x = F.transport(T, 'n1', 'n2', 0, 2, cost=3 if sense == 'min' else 0, takes=tk, ws=ws, we=we)
-            rest = [slack(T, 'n1', ([1, 1, 1] * T)[:T], lo=-4, hi=4), slack(T, 'n2', ([2, 3, 2] * T)[:T] if sense == 'max' else [1, 1, 1], lo=-4, hi=4)]
+            rest = [slack(T, 'n1', ([1, 1, 1] * T)[:T], lo=-4, hi=4), slack(T, 'n2', ([2, 3, 2] * T)[:T] if sense == 'max' else ([1, 1, 1] * T)[:T], lo=-4, hi=4)]
         out.append(F.make_cfg(ids(), T, rest + [x], dt=dt, placement=pname, element='take_' + kind, element_index=len(rest)))
     return out
 
